@@ -10,6 +10,7 @@ import BqVerif.Proofs.CircSem
 import BqVerif.Proofs.CircUnfoldSem
 import BqVerif.Proofs.CircUnfoldAll
 import BqVerif.Proofs.CircBatchUnfoldSem
+import BqVerif.Proofs.CircRemoveAll
 /-! # C04 — Circuit editing calls have their documented effect on program order -/
 namespace BqVerif.C04
 open BqVerif.Circ
@@ -429,5 +430,36 @@ example :
       c.batchUnfold b [(0, 3), (0, 0)] =
         (⟨[2, 2, 2, 2], [[⟨1, [], [3], [2]⟩], [⟨1, [], [0], [2]⟩],
           [⟨6, [], [3, 2], [2, 2]⟩, ⟨6, [], [0, 1], [2, 2]⟩]]⟩, .ok ()) := by decide
+
+/-- **remove_all** (`Circ.removeAll`: ONE `batch_pop` of the points `(cycle, location[0])` of all
+operations satisfying `pred` — "equals the operation" or "has the gate" —, which is how the
+harness replays the Python's pop-until-`point()`-fails loop; unchanged when nothing matches).  On
+the grid: every cycle loses exactly its matching operations, in place, and the cycles that became
+empty are dropped.  Hence nothing matching is left, every qudit's timeline is its old timeline with
+the matching operations filtered out (nothing else moves), and `Inv` holds.  The proof follows the
+removal fold of `batch_pop` (last cycle first; inside a cycle one operation at a time, the cycle
+dropped with its last operation: `removeAt_bucket`, `remove_groups`). -/
+theorem C04_remove_all (c : Circ) (hinv : c.Inv) (pred : Op → Bool) :
+    (c.removeAll pred).cycles =
+      (c.cycles.map (fun cy => cy.filter (fun o => !pred o))).filter (fun cy => !cy.isEmpty) ∧
+    (c.removeAll pred).radixes = c.radixes ∧
+    (∀ o ∈ (c.removeAll pred).ops, pred o = false) ∧
+    (c.removeAll pred).ops = c.ops.filter (fun o => !pred o) ∧
+    (∀ q, (c.removeAll pred).timeline q = (c.timeline q).filter (fun o => !pred o)) ∧
+    (c.removeAll pred).Inv := by
+  refine ⟨by rw [removeAll_eq c hinv pred]; rfl, by rw [removeAll_eq c hinv pred], ?_,
+    removeAll_ops c hinv pred, removeAll_timeline c hinv pred, removeAll_inv c hinv pred⟩
+  intro o ho
+  rw [removeAll_ops c hinv pred, List.mem_filter] at ho
+  simpa using ho.2
+
+-- non-vacuity: removing every X (gid 1): cycle 0 vanishes, cycle 1 loses one of its two
+-- operations, cycle 2 vanishes; the same through the points handed to `batch_pop`
+example :
+    let c : Circ := ⟨[2, 2, 2], [[⟨1, [], [0], [2]⟩], [⟨6, [], [0, 1], [2, 2]⟩, ⟨1, [], [2], [2]⟩],
+      [⟨1, [], [0], [2]⟩], [⟨2, [], [1], [2]⟩]]⟩
+    c.invB = true ∧ c.pointsOf (·.gid == 1) = [(0, 0), (1, 2), (2, 0)] ∧
+      c.removeAll (·.gid == 1) = ⟨[2, 2, 2], [[⟨6, [], [0, 1], [2, 2]⟩], [⟨2, [], [1], [2]⟩]]⟩ ∧
+      c.removeAll (·.gid == 9) = c := by decide
 
 end BqVerif.C04
